@@ -32,6 +32,16 @@
 //	    with the label written on it (macroresolver.go:66). Together a jump can silently land in another
 //	    macro's expansion.
 //
+// Observed on the unchanged repository while adding data sections (not judged, excluded by construction and
+// counted as db:number-without-byte-size): docinstructions.md says every expression of `db` is one byte
+// (`examplevar db 1, 2, 3`), the assembler takes the width from the notation: `db 1, 2, 3` becomes 24 ROM cells
+// (each plain/0d/0u number 8 cells, big endian), `db 0x0102` two. The campaign writes bytes as 0xH, 0xHH, 0b…,
+// 0x<8>…, 0b<8>….
+//
+// A stream mismatch on a multi-CP machine is attributed to the simulator's handshake (C04) only if every
+// processor of the machine is, program and ROM data, what the assembler makes of its CP alone (triageMultiCP):
+// what the assembler does differently for CPs that share a text or a macro is a C05 matter.
+//
 // Accepted refusals (counted as rejected:<class>): see mayReject and the mov-literal note in evalCase.
 package c05
 
@@ -71,6 +81,7 @@ type mode struct {
 	// LabelLeak: a label lost on a macro use (or before the entry directive) whose name is also written after
 	// the last instruction of some block
 	LabelLeak bool
+	DbUnsized bool // a `db` expression written without a byte size (plain decimal, 0d, 0u, long hex)
 }
 
 var (
@@ -79,6 +90,7 @@ var (
 	modeKnownLeak  = mode{Leak: true}
 	modeFuzz       = mode{Fuzz: true}
 	modeKnownLeak2 = mode{LabelLeak: true}
+	modeKnownDb    = mode{DbUnsized: true}
 )
 
 // leakRepeats: the defect behind modeKnownLeak depends on the iteration order of a Go map inside the
@@ -146,7 +158,8 @@ func aloneSource(src string, rs *refSource, net *refNet, ci int) (text string, i
 	return strings.Join(keep, "\n") + "\n", inChans, outChans
 }
 
-// triage of a stream mismatch seen on a multi-CP machine: is the wiring the declared one and
+// triage of a stream mismatch seen on a multi-CP machine: is the wiring the declared one, is every processor
+// of the machine the same (program and ROM data) as the one the assembler makes of its CP alone, and
 // does every CP, assembled and simulated alone on the streams the reference computed for its inputs,
 // produce the reference streams? Then the processors and the bonds are what the source says and the
 // difference comes from the simulator's handshake between processors (C04's D4/D5), not from the assembler.
@@ -157,11 +170,22 @@ func triageMultiCP(c Case, rs *refSource, net *refNet, ref *refResult, bm *bondm
 		return false, fmt.Sprintf("bonds of the machine %v differ from the declared ones %v", got, want)
 	}
 	var notes []string
+	rank := cpRank(rs)
 	for ci := range rs.CPs {
 		src, inCh, outCh := aloneSource(c.Src, rs, net, ci)
 		abm, aerr := assemble(src, c.Cfg)
 		if aerr != nil {
 			return false, fmt.Sprintf("cp %s alone is not assembled: %v", rs.CPs[ci].Name, aerr)
+		}
+		// the processor of the whole machine has to be the one that was tried alone: same program, same ROM data
+		if pi := rank[ci]; pi < len(bm.Processors) && bm.Processors[pi] < len(bm.Domains) && len(abm.Domains) == 1 {
+			full, alone := bm.Domains[bm.Processors[pi]], abm.Domains[0]
+			fd, ferr := full.Disassembler()
+			ad, aerr := alone.Disassembler()
+			if ferr != nil || aerr != nil || fd != ad || fmt.Sprint(full.Data.Vars) != fmt.Sprint(alone.Data.Vars) {
+				return false, fmt.Sprintf("cp %s (processor %d) is assembled differently in the whole machine than alone:\n--- whole machine (ROM data %v)\n%s--- alone (ROM data %v)\n%s",
+					rs.CPs[ci].Name, pi, full.Data.Vars, fd, alone.Data.Vars, ad)
+			}
 		}
 		env := gen.Env{}
 		for _, ch := range inCh {
@@ -309,7 +333,11 @@ func evalCase(c Case, m mode) (out pbt.Outcome) {
 	if labelLeak {
 		lab["label-leak-shape"] = true
 	}
-	if feat["db:number-without-byte-size"] && !m.Fuzz {
+	dbUnsized := feat["db:number-without-byte-size"]
+	if m.DbUnsized && !dbUnsized {
+		return pbt.Outcome{Excluded: "no-unsized-db"}
+	}
+	if dbUnsized && !m.Fuzz && !m.DbUnsized {
 		// docinstructions.md: every expression of `db` is one byte (`examplevar db 1, 2, 3`). The assembler takes the
 		// width from the notation: a number written without a size (plain decimal, 0d, 0u) becomes 8 cells, 0x1234 two.
 		// Recorded as a finding candidate; the main campaign writes bytes as 0xH, 0xHH, 0b…, 0x<8>…, 0b<8>… only.
@@ -350,6 +378,7 @@ func evalCase(c Case, m mode) (out pbt.Outcome) {
 
 func evalOnce(c Case, m mode, rs *refSource, net *refNet, lab map[string]bool, rejectable string, d6, leak bool) pbt.Outcome {
 	feat := rs.Feat
+	dbUnsized := feat["db:number-without-byte-size"]
 	_ = feat
 	bm, aerr := assemble(c.Src, c.Cfg)
 	if aerr != nil {
@@ -453,6 +482,9 @@ func evalOnce(c Case, m mode, rs *refSource, net *refNet, lab map[string]bool, r
 			what = fmt.Sprintf("output o%d differs at position %d: the source says %d, the machine delivers %d", badOut, badIdx, ref.Out[badOut][badIdx], sim[badOut][badIdx])
 		} else {
 			what = fmt.Sprintf("output o%d: the machine delivers %d values in %d ticks, the source cannot have produced more than %d", extra, len(sim[extra]), c.Ticks, len(ref.Out[extra]))
+		}
+		if dbUnsized && m.DbUnsized {
+			return pbt.Outcome{Fail: pbt.Failf("db:number-without-byte-size", "%s (docinstructions.md: every expression of `db` is one byte, `examplevar db 1, 2, 3`; the assembler takes the width from the notation, so a number written without a size occupies 8 ROM cells, big-endian, and the symbols that follow move)\n%s--- source ---\n%s", what, describe(), c.Src)}
 		}
 		if leak {
 			return pbt.Outcome{Fail: pbt.Failf("macro-lines-shared:iomode-leak", "%s (a macro that contains `mov` to or from a port is expanded in a sync and in an async section; its lines are shared objects and the io mode of the section processed last is applied to both)\n%s--- source ---\n%s", what, describe(), c.Src)}
@@ -666,8 +698,9 @@ func propMain(c Case) pbt.Outcome           { return evalCase(c, modeMain) }
 func propKnownD6(c Case) pbt.Outcome        { return evalCase(c, modeKnownD6) }
 func propKnownLeak(c Case) pbt.Outcome      { return evalCase(c, modeKnownLeak) }
 func propKnownLabelLeak(c Case) pbt.Outcome { return evalCase(c, modeKnownLeak2) }
+func propKnownDb(c Case) pbt.Outcome        { return evalCase(c, modeKnownDb) }
 
-const ruleCommon = "generated .basm sources: 1..3 romtext sections (entry directive, 1..3 labels per site, counter-bounded loops, conditional/unconditional forward skips, permuted block chains over j/jmp/jz with label operands; mov/rset/cpy/inc/dec/add/mult/clr/nop/noop; sync IO as mov or i2rw/r2owa, each IO followed by 3 non-IO instructions), literals in dec/0d/0u/0x/0b and sized notations, 0-argument macros, 1..3 CPs (sections shared or unused), fan-out 1 bonds CP-CP/BM-CP/CP-BM, registersize in {8,16,32,64}, layout noise (comments, blank lines, tabs, CRLF, meta order); oracle: value streams on every external output equal, prefix-wise, those of a reference interpreter of the text; non-trivial = the interpretation took >=1 backward and >=1 forward jump, executed >=1 pseudo-instruction and >=3 values were compared on some output"
+const ruleCommon = "generated .basm sources: 1..3 romtext sections (entry directive, 1..3 labels per site, counter-bounded loops, conditional/unconditional forward skips, permuted block chains over j/jmp/jz with label operands; mov/rset/cpy/inc/dec/add/mult/clr/nop/noop; sync IO as mov or i2rw/r2owa, each IO followed by 3 non-IO instructions), literals in dec/0d/0u/0x/0b and sized notations, 0-argument macros (in 1 source of 3 also macros whose body jumps, j or jz, to a label that every section using them defines, at a different instruction index per section), 1..3 CPs (sections shared or unused), in 1 source of 3 also 1..3 romdata sections (symbols declared with db, one byte per expression, order/padding/lengths differing between sections) read with mov rX,rom:<symbol> / inc rX / mov rY,rom:[rX], the CPs that share a text getting the same or different data sections, fan-out 1 bonds CP-CP/BM-CP/CP-BM, registersize in {8,16,32,64}, layout noise (comments, blank lines, tabs, CRLF, meta order); oracle: value streams on every external output equal, prefix-wise, those of a reference interpreter of the text; non-trivial = the interpretation took >=1 backward and >=1 forward jump, executed >=1 pseudo-instruction and >=3 values were compared on some output"
 
 // Props is the main campaign. Props of recorded defects live in PropsKnown (they are expected to fail).
 var Props = []*pbt.Entry{
@@ -684,6 +717,8 @@ var PropsKnown = []*pbt.Entry{
 		genSource(genOpts{Entry: 0, MaxCPs: 1, Leak: true}), propKnownLeak),
 	pbt.Def("label_leak", "a fixed skeleton with generated bodies: a section ends with label X after its last instruction, the next block of the file is a macro M; another section writes X directly on a use of macro N (that label is lost), uses M later and jumps to X: confirms that the jump silently lands on the expansion of M; expected to fail with signature label-leak:trailing-label-captures-jump",
 		genLabelLeak, propKnownLabelLeak),
+	pbt.Def("db_unsized", "a fixed skeleton with generated values: one romdata section `f db a, b, c` whose numbers are written as plain decimals (the documentation's own example), read back with mov rX,rom:f / mov rY,rom:[rX] / inc rX and sent to o0: confirms that such a number occupies 8 cells instead of one; expected to fail with signature db:number-without-byte-size",
+		genDbUnsized, propKnownDb),
 }
 
 func TestProps(t *testing.T) { pbt.RunAll(t, "C05", Props) }
